@@ -255,6 +255,35 @@ fn graphql_value_to_json(
     }
 }
 
+/// Like [`graphql_value_to_json`] for a value written in a field argument, where variables
+/// are allowed: a list or object literal given for a custom scalar may contain variables
+/// at any depth, they are replaced by their (already coerced) value.
+/// A variable without a value becomes `null`.
+fn argument_value_to_json(
+    variable_values: &JsonMap,
+    description: &std::fmt::Arguments<'_>,
+    value: &Node<Value>,
+) -> Result<JsonValue, InputCoercionError> {
+    match value.as_ref() {
+        Value::Variable(name) => Ok(variable_values
+            .get(name.as_str())
+            .cloned()
+            .unwrap_or(JsonValue::Null)),
+        Value::List(value) => value
+            .iter()
+            .map(|value| argument_value_to_json(variable_values, description, value))
+            .collect(),
+        Value::Object(value) => value
+            .iter()
+            .map(|(key, value)| {
+                let value = argument_value_to_json(variable_values, description, value)?;
+                Ok((key.as_str(), value))
+            })
+            .collect(),
+        _ => graphql_value_to_json(description, value),
+    }
+}
+
 /// <https://spec.graphql.org/October2021/#sec-Coercing-Field-Arguments>
 pub(crate) fn coerce_argument_values(
     ctx: &mut ExecutionContext<'_>,
@@ -451,11 +480,13 @@ fn coerce_argument_value(
         }
         _ => {
             // For scalar and enums, rely and validation and just convert between Rust types
-            return graphql_value_to_json(description, value).map_err(|err| {
-                ctx.errors
-                    .push(err.into_field_error(path, &ctx.document.sources));
-                PropagateNull
-            });
+            return argument_value_to_json(ctx.variable_values, description, value).map_err(
+                |err| {
+                    ctx.errors
+                        .push(err.into_field_error(path, &ctx.document.sources));
+                    PropagateNull
+                },
+            );
         }
     }
     ctx.errors.push(GraphQLError::field_error(
